@@ -22,6 +22,7 @@
 import BufrModel.Props.C09
 import BufrModel.Lemmas.WireSimComp
 import BufrModel.Lemmas.WireSimLinks
+import BufrModel.Lemmas.WireResolve
 import BufrModel.Props.C07Walk
 import BufrModel.Props.C07Spec
 namespace Bufr
@@ -87,7 +88,7 @@ theorem C09_decode_compressed_nested_json_to_flat_partial (a : Bool) (t : List D
   have htree : w.tree = .ok w.nodes := by
     unfold Wired.tree Wired.fuel
     rw [htab]
-    exact resolveList_plain o0 (w.st.next + 2) ⟨by omega, fun _ => by omega⟩ w.nodes hp
+    exact resolveList_plain o0 (2 * w.st.next + 2) ⟨by omega, fun _ => by omega⟩ w.nodes hp
   have hwire : wire t o0 = .ok w.nodes := by unfold wire; rw [hw]; exact htree
   refine ⟨w.nodes, hwire, ?_, fun o ho hsame => ?_⟩
   · unfold wireAll
@@ -215,14 +216,15 @@ theorem C09_compressed_missing_count_breaks :
     link names (`lookupLink o.links`), the owner lies in front of it, and every link the coder recorded is shown;
   * `C09_decode_links_owner_eq_spec_partial` — on templates that are also `Spec.WFlinks` (and items `markersOk`) the
     owner is the owner `Spec.links` computes from the flat items alone (`C07_links_eq_spec`);
-  * `C09_decode_links_nested_json_to_flat_partial` — nested JSON -> flat returns the decoded values once attachment and
-    rendering succeed;
-  * `C09_decode_compressed_links_wire_partial` — compressed data: the same for the tree wired from subset 0.
-  MISSING: that attachment (`Wired.tree`, fuel `next + 2`) and rendering always succeed on this class.  The facts the
-  argument needs are proved (`Linked.owners`: owner < attribute, the meaning node of a stats marker lies strictly
-  between owner and marker, so no attribute cycle; `Linked.good`: every index of the tree is inside the flat lists);
-  the induction over the fuel of `resolveV` is not written.  For compressed data the statement is about subset 0 (the
-  other subsets share labels and links; that they are as long is proved for `quietList` only). -/
+  * `C09_decode_links_nested_json_to_flat_partial`, `C09_decode_links_chain_partial`,
+    `C09_decode_message_links_chain_partial` — attachment of the bitmap-linked attributes succeeds (no attribute
+    cycle: `Lemmas/WireResolve.lean`, fuel `2 * next + 2`), rendering succeeds, nested JSON -> flat returns the decoded
+    values; for a subset and for every subset of an uncompressed message;
+  * `C09_decode_compressed_links_wire_partial`, `C09_decode_compressed_links_nested_json_to_flat_partial`,
+    `C09_decode_message_compressed_links_nested_json_to_flat_partial` — compressed data, EVERY subset: one pass on
+    subset 0, the shared tree holds every subset's values once, owners as the shared links say; nested JSON -> flat
+    returns each subset's values under `Spec.sameCountsList` (needed: `C09_compressed_missing_count_breaks`).
+  `C09_decode_hierarchical_view` (end of the file) is the statement over the union of the proved classes. -/
 
 theorem C09_links_of_sound {o : SubsetOut}
     (h : ∀ l ∈ o.links, ∃ e, o.descs[l.2]? = some (.plain e) ∧
@@ -241,7 +243,8 @@ theorem C09_decode_links_linked (t : List Desc) (hq : wireLinksOK t = true) (bit
     injection h with h
     injection h with ho _
     subst ho
-    refine walk_linked pushOne_decPrimsU hq rfl rfl rfl ⟨[], rfl⟩ ?_ hs rfl rfl ?_ hsound
+    refine (walk_linked pushOne_decPrimsU hq rfl rfl rfl ⟨[], rfl⟩ ?_ hs rfl rfl ?_ hsound).elim
+      (fun w x => ⟨w, x.1⟩)
     · intro l hl
       rw [List.mem_singleton] at hl
       exact hl
@@ -289,23 +292,76 @@ theorem C09_decode_links_owner_eq_spec_partial (t : List Desc) (hq : wireLinksOK
   rw [C07_links_eq_spec t bits o rest h hwf hok] at h3
   exact ⟨k, i, own, e, h3⟩
 
-/-- nested JSON -> flat for the class: all the decidable hypotheses of `C09_nested_json_to_flat_partial` hold; what is
-    left as hypothesis is that attachment and rendering succeed (MISSING: see the section header) -/
+/-- the tree was wired on `o0`, `o` satisfies what `Linked` says: attachment and rendering succeed and nested JSON ->
+    flat returns the values of `o` -/
+theorem C09_core_chain {t : List Desc} {o0 o : SubsetOut} {w : Wired} (hw : wireRaw t o0 = .ok w)
+    (hc : LinkedCore o w) :
+    ∃ tree js, w.tree = .ok tree ∧ renderNested o tree = .ok js ∧ nestedJsonToFlat js = .ok o.vals := by
+  obtain ⟨tree, js, ht, hj⟩ := hc.tree_renders
+  exact ⟨tree, js, ht, hj, C09_nested_json_to_flat_shared_partial t o0 o w tree js hw hc.sideOK ht hj⟩
+
+/-- nested JSON -> flat for the class, NO hypothesis left besides the class and the success of the decode: attachment
+    of the bitmap-linked attributes succeeds (no attribute cycle: `Lemmas/WireResolve.lean`), rendering succeeds, and
+    the converter returns the decoded values.
+    MISSING for the full statement: templates outside `wireLinksOK` / `quietList`. -/
 theorem C09_decode_links_nested_json_to_flat_partial (t : List Desc) (hq : wireLinksOK t = true) (bits rest : Bits)
     (o : SubsetOut) (h : decodeSubset t bits = .ok (o, rest)) :
-    ∃ w, wireRaw t o = .ok w ∧ ∀ tree js, w.tree = .ok tree → renderNested o tree = .ok js →
+    ∃ w tree js, wireRaw t o = .ok w ∧ w.tree = .ok tree ∧ renderNested o tree = .ok js ∧
       nestedJsonToFlat js = .ok o.vals := by
   obtain ⟨w, hl⟩ := C09_decode_links_linked t hq bits rest o h
-  exact ⟨w, hl.wired, fun tree js ht hj => C09_nested_json_to_flat_partial t o w tree js hl.wired hl.sideOK ht hj⟩
+  obtain ⟨tree, js, h1, h2, h3⟩ := C09_core_chain hl.wired hl.core
+  exact ⟨w, tree, js, hl.wired, h1, h2, h3⟩
 
-/-- compressed data: the (single) wiring pass on the flat lists of subset 0 -/
-theorem C09_decode_compressed_links_wire_partial (t : List Desc) (hq : wireLinksOK t = true) (n : Nat)
+/-- the same as one chain: decode -> wire -> nested JSON -> flat returns the decoded values -/
+theorem C09_decode_links_chain_partial (t : List Desc) (hq : wireLinksOK t = true) (bits rest : Bits)
+    (o : SubsetOut) (h : decodeSubset t bits = .ok (o, rest)) :
+    ((wire t o >>= renderNested o) >>= nestedJsonToFlat) = .ok o.vals := by
+  obtain ⟨w, tree, js, h0, h1, h2, h3⟩ := C09_decode_links_nested_json_to_flat_partial t hq bits rest o h
+  have hwire : wire t o = .ok tree := by unfold wire; rw [h0]; exact h1
+  rw [hwire]
+  show (renderNested o tree >>= nestedJsonToFlat) = _
+  rw [h2]
+  exact h3
+
+/-- and for every subset of an uncompressed message -/
+theorem C09_decode_message_links_chain_partial (t : List Desc) (hq : wireLinksOK t = true) :
+    ∀ (n : Nat) (bits rest : Bits) (outs : List SubsetOut), decodeData t false n bits = .ok (outs, rest) →
+      ∀ o ∈ outs, ((wire t o >>= renderNested o) >>= nestedJsonToFlat) = .ok o.vals := by
+  intro n
+  induction n with
+  | zero =>
+    intro bits rest outs h o ho
+    unfold decodeData at h
+    simp only [Bool.false_eq_true, if_false] at h
+    rw [decodeSubsets] at h
+    injection h with h; injection h with h _; subst h
+    cases ho
+  | succ n ih =>
+    intro bits rest outs h o ho
+    unfold decodeData at h
+    simp only [Bool.false_eq_true, if_false] at h
+    rw [decodeSubsets] at h
+    split at h
+    · cases h
+    · next o1 r1 h1 =>
+      split at h
+      · cases h
+      · next os r2 h2 =>
+        injection h with h; injection h with h _; subst h
+        cases ho with
+        | head => exact C09_decode_links_chain_partial t hq bits r1 o h1
+        | tail _ hm =>
+          refine ih r1 r2 os ?_ o hm
+          unfold decodeData
+          simp only [Bool.false_eq_true, if_false]
+          exact h2
+
+/-- compressed data: the (single) wiring pass on the flat lists of subset 0; every subset shares labels and links and
+    has as many values as labels -/
+theorem C09_decode_compressed_links_linked (t : List Desc) (hq : wireLinksOK t = true) (n : Nat)
     (bits rest : Bits) (outs : List SubsetOut) (o0 : SubsetOut)
     (h : decodeCompressed t n bits = .ok (outs, rest)) (h0 : outs.head? = some o0) :
-    ∃ w, wireRaw t o0 = .ok w ∧ w.st.next = o0.vals.length ∧ idxList w.nodes = List.range o0.vals.length ∧
-      w.sideOK o0 = true ∧
-      (∀ p ∈ w.st.tab, ∃ k i own, p.2 = .value k i own ∧ p.1 < i ∧ lookupLink o0.links i = some p.1) ∧
-      (∀ q ∈ o0.links, ∃ p ∈ w.st.tab, p.2.index? = some q.1) := by
+    ∃ w, Linked t o0 w ∧ ∀ o ∈ outs, o.descs = o0.descs ∧ o.links = o0.links ∧ o.vals.length = o.descs.length := by
   have hmem : o0 ∈ outs := List.mem_of_mem_head? h0
   have hsound := C09_links_of_sound
     (C07_links_sound_message_partial t true n bits outs rest (by simp only [decodeData, if_true]; exact h) o0 hmem)
@@ -333,13 +389,82 @@ theorem C09_decode_compressed_links_wire_partial (t : List Desc) (hq : wireLinks
       rw [hvl] at hlen
       cases hlen
     | succ n =>
-      obtain ⟨w, hl⟩ := walk_linked (o := o0) pushOne_decPrimsC hq rfl rfl rfl ⟨List.replicate n [], rfl⟩
+      obtain ⟨w, hl, hal⟩ := walk_linked (o := o0) pushOne_decPrimsC hq rfl rfl rfl ⟨List.replicate n [], rfl⟩
         (fun l hl => (List.mem_replicate.mp hl).2) hs (by rw [ho0]) (by rw [ho0])
         (fun l' hl' => by rw [hvl] at hl'; injection hl' with hl'; rw [ho0, hl']) hsound
-      refine ⟨w, hl.wired, hl.next, C09_wire_consumes_each_index_once_partial t o0 w hl.wired hl.next, hl.sideOK,
-        fun p hp => ?_, hl.shown⟩
-      obtain ⟨k, i, own, e, h1, _, h3, _⟩ := hl.owners p hp
-      exact ⟨k, i, own, e, h1, h3⟩
+      refine ⟨w, hl, fun o ho => ?_⟩
+      unfold St.outs at ho
+      obtain ⟨l1, h1, rfl⟩ := List.mem_map.mp ho
+      rw [ho0]
+      exact ⟨rfl, rfl, by simp [hal l1 h1]⟩
+
+/-- compressed data, EVERY subset: the shared tree holds every value of every subset exactly once, the pass consumed
+    as many indices as every subset has values, attributes sit under the owner the (shared) link names -/
+theorem C09_decode_compressed_links_wire_partial (t : List Desc) (hq : wireLinksOK t = true) (n : Nat)
+    (bits rest : Bits) (outs : List SubsetOut) (o0 : SubsetOut)
+    (h : decodeCompressed t n bits = .ok (outs, rest)) (h0 : outs.head? = some o0) :
+    ∃ w, wireRaw t o0 = .ok w ∧ w.sideOK o0 = true ∧
+      (∀ o ∈ outs, w.st.next = o.vals.length ∧ idxList w.nodes = List.range o.vals.length ∧
+        (∀ p ∈ w.st.tab, ∃ k i own, p.2 = .value k i own ∧ p.1 < i ∧ lookupLink o.links i = some p.1) ∧
+        (∀ q ∈ o.links, ∃ p ∈ w.st.tab, p.2.index? = some q.1)) := by
+  obtain ⟨w, hl, hall⟩ := C09_decode_compressed_links_linked t hq n bits rest outs o0 h h0
+  refine ⟨w, hl.wired, hl.sideOK, fun o ho => ?_⟩
+  obtain ⟨hd, hlk, hlen⟩ := hall o ho
+  have hn : w.st.next = o.vals.length := by rw [hl.next, hlen, hd, hl.len]
+  refine ⟨hn, by rw [C09_wire_indices_consecutive t o0 w hl.wired, hn], fun p hp => ?_, by rw [hlk]; exact hl.shown⟩
+  obtain ⟨k, i, own, e, h1, _, h3, _⟩ := hl.owners p hp
+  exact ⟨k, i, own, e, h1, by rw [hlk]; exact h3⟩
+
+/-- compressed data, EVERY subset: `wireAll` succeeds with the shared tree, and for every subset that carries the
+    delayed replication counts of subset 0 (`Spec.sameCountsList` on the tree every reader sees) rendering succeeds
+    and nested JSON -> flat returns THAT subset's values.  The hypothesis is needed (`C09_compressed_missing_count_breaks`). -/
+theorem C09_decode_compressed_links_nested_json_to_flat_partial (t : List Desc) (hq : wireLinksOK t = true) (n : Nat)
+    (bits rest : Bits) (outs : List SubsetOut) (o0 : SubsetOut)
+    (h : decodeCompressed t n bits = .ok (outs, rest)) (h0 : outs.head? = some o0) :
+    ∃ tree, wire t o0 = .ok tree ∧ wireAll t true outs = .ok (outs.map fun _ => tree) ∧
+      ∀ o ∈ outs, Spec.sameCountsList o0 o tree = true →
+        (renderNested o tree >>= nestedJsonToFlat) = .ok o.vals := by
+  obtain ⟨w, hl, hall⟩ := C09_decode_compressed_links_linked t hq n bits rest outs o0 h h0
+  obtain ⟨tree, js0, ht, _⟩ := hl.core.tree_renders
+  have hwire : wire t o0 = .ok tree := by unfold wire; rw [hl.wired]; exact ht
+  refine ⟨tree, hwire, ?_, fun o ho hsame => ?_⟩
+  · unfold wireAll
+    simp only [if_true]
+    cases outs with
+    | nil => cases h0
+    | cons o1 os =>
+      simp only [List.head?_cons, Option.some.injEq] at h0
+      subst h0
+      simp only [hwire]
+  · obtain ⟨hd, hlk, hlen⟩ := hall o ho
+    have hraw : Spec.sameCountsList o0 o w.nodes = true :=
+      sameCountsList_raw (N := o0.descs.length) w.nodes tree hl.good.2 (by unfold Wired.tree at ht; exact ht) hsame
+    obtain ⟨tree', js, h1, h2, h3⟩ := C09_core_chain hl.wired (hl.core.shared hd hlk hlen hraw)
+    rw [ht] at h1
+    injection h1 with h1
+    subst h1
+    show (renderNested o tree >>= nestedJsonToFlat) = _
+    rw [h2]
+    exact h3
+
+/-- the same read off `decodeData` (a compressed message as `Decoder.process` hands it over) -/
+theorem C09_decode_message_compressed_links_nested_json_to_flat_partial (t : List Desc) (hq : wireLinksOK t = true)
+    (n : Nat) (bits rest : Bits) (outs : List SubsetOut) (o0 : SubsetOut)
+    (h : decodeData t true n bits = .ok (outs, rest)) (h0 : outs.head? = some o0) :
+    ∃ trees, wireAll t true outs = .ok trees ∧ trees.length = outs.length ∧
+      ∀ (i : Nat) (o : SubsetOut) (tree : List Node), outs[i]? = some o → trees[i]? = some tree →
+        Spec.sameCountsList o0 o tree = true → (renderNested o tree >>= nestedJsonToFlat) = .ok o.vals := by
+  unfold decodeData at h
+  simp only [if_true] at h
+  obtain ⟨tree, _, hall, hsub⟩ :=
+    C09_decode_compressed_links_nested_json_to_flat_partial t hq n bits rest outs o0 h h0
+  refine ⟨_, hall, by simp, fun i o tr ho htr hsame => ?_⟩
+  have hmem : o ∈ outs := List.mem_of_getElem? ho
+  have : tr = tree := by
+    rw [List.getElem?_map, ho] at htr
+    exact (Option.some.inj htr).symm
+  subst this
+  exact hsub o hmem hsame
 
 /-- the statement, evaluated: the decode succeeds, the pass succeeds, consumed everything, side conditions hold, every
     attached attribute sits under the owner the coder's link names and every link is shown -/
@@ -438,5 +563,67 @@ example : Spec.WFlinks exW := by decide +kernel
 example : ((decodeSubset exW (zeros' 200)).toOption.map fun r => Spec.markersOk (r.1.descs.zip r.1.vals)) = some true := by
   decide +kernel
 example : linkStatement exW (zeros' 200) = true := by decide +kernel
+
+/-! ## Stage 3: the property statement over the union of the proved classes -/
+
+/-- the templates on which the link coder -> hierarchical view is proved -/
+def C09.viewClass (t : List Desc) : Bool := quietList false t || quietList true t || wireLinksOK t
+
+/-- **C09, hierarchical view** - for every template of `C09.viewClass` and EVERY bit string: if the (uncompressed)
+    decode of a subset succeeds, then
+    (1) the wiring pass succeeds and has consumed exactly the decoded values;
+    (2) the tree holds every decoded value exactly once - as a member, a replication factor or an associated-field
+        attribute of its owner - and the tree order is the flat order (`idxList w.nodes = List.range n`);
+    (3) every attribute attached through a bit-map (quality information, substituted / first-order / difference /
+        replaced value) sits under the element the coder's bit-map link names, which precedes it;
+    (4) attachment and rendering succeed and nested JSON -> flat returns the decoded values: the original flat order
+        is recovered.
+    `C09.viewClass` = `quietList false` (elements of every class, sequences, nested fixed / delayed replication,
+    201 202 203 205 207 208 221) ∪ `quietList true` (the same without 203, with 204YYY + 031021 / 204000 over plain
+    elements) ∪ `wireLinksOK` (elements, sequences, replications, 201 202 205 206 207 208, the bit-map operators
+    222000 223000 224000 225000 232000 235000 236000 237000 237255, bit-map definitions by 031031 runs under fixed or
+    delayed replication, marker operators 22X255 / 232255, class 33 values after 222000).
+    OUTSIDE, and why:
+    * FALSE there (open findings, proved negations `exO2` in Props/C09.lean, `exF15`, `exAcross`, `exF11c`,
+      `exNoMeaning`, `exSkipRep` above): 204 in force over a 203 definition, a 206 skip, a marker operator, 008023 /
+      008024 or a class 33 value (F11a-d, F11-C07-wire-*); a class 33 element after other elements following a
+      quality run (F15); 222000 followed by another bit-map operator before its quality values
+      (F-C07-wire-qa-across-operator); a stats marker without the 008023 / 008024 of its own operator (AttributeError,
+      or an attribute cycle when an old meaning node is selected by the new bit-map); 206YYY in front of a
+      replication / sequence / operator; 222YYY with YYY ≠ 0;
+    * TRUE but not proved: 221 or a 203 definition in a template that also has bit-map operators or 206; 204 in a
+      stretch of a template that elsewhere has bit-map operators (the two simulations are not merged: `quietList`
+      tracks the 204 stack and the 221 count, `wireLinksOK` the QA flags and links); a replication body that is not
+      a fixed point of the abstract interpretation after one round although every run of it is harmless.
+    Compressed data: `C09_decode_compressed_nested_json_to_flat_partial` (quietList) and
+    `C09_decode_compressed_links_nested_json_to_flat_partial` (wireLinksOK), every subset, under `Spec.sameCountsList`. -/
+theorem C09_decode_hierarchical_view (t : List Desc) (hq : C09.viewClass t = true) (bits rest : Bits) (o : SubsetOut)
+    (h : decodeSubset t bits = .ok (o, rest)) :
+    ∃ w, wireRaw t o = .ok w ∧ w.st.next = o.vals.length ∧ idxList w.nodes = List.range o.vals.length ∧
+      (∀ p ∈ w.st.tab, ∃ k i own, p.2 = .value k i own ∧ p.1 < i ∧ lookupLink o.links i = some p.1) ∧
+      ((wire t o >>= renderNested o) >>= nestedJsonToFlat) = .ok o.vals := by
+  unfold C09.viewClass at hq
+  rw [Bool.or_eq_true, Bool.or_eq_true] at hq
+  have quiet : ∀ a, quietList a t = true →
+      ∃ w, wireRaw t o = .ok w ∧ w.st.next = o.vals.length ∧ idxList w.nodes = List.range o.vals.length ∧
+        (∀ p ∈ w.st.tab, ∃ k i own, p.2 = .value k i own ∧ p.1 < i ∧ lookupLink o.links i = some p.1) ∧
+        ((wire t o >>= renderNested o) >>= nestedJsonToFlat) = .ok o.vals := by
+    intro a hqa
+    obtain ⟨w, hw, hn, _, _, htab⟩ := decodeSubset_wire hqa h
+    exact ⟨w, hw, hn, C09_wire_consumes_each_index_once_partial t o w hw hn,
+      (fun p hp => by rw [htab] at hp; cases hp),
+      C09_decode_nested_json_to_flat_partial a t hqa bits rest o h⟩
+  rcases hq with (hq | hq) | hq
+  · exact quiet false hq
+  · exact quiet true hq
+  · obtain ⟨w, hl⟩ := C09_decode_links_linked t hq bits rest o h
+    refine ⟨w, hl.wired, hl.next, C09_wire_consumes_each_index_once_partial t o w hl.wired hl.next, fun p hp => ?_,
+      C09_decode_links_chain_partial t hq bits rest o h⟩
+    obtain ⟨k, i, own, e, h1, _, h3, _⟩ := hl.owners p hp
+    exact ⟨k, i, own, e, h1, h3⟩
+
+/-- non-vacuity: one template of each of the three classes is in `viewClass` and decodes -/
+example : C09.viewClass exQ = true ∧ C09.viewClass exT = true ∧ C09.viewClass exIn = true ∧
+    (decodeSubset exIn (zeros' 200)).toOption.isSome = true := by decide +kernel
 
 end Bufr
